@@ -146,7 +146,11 @@ def _layer_over(ex, st, k):
     alpha_modes = lambda v: z3.Or(mode(v) == z3.StringVal('RGBA'), mode(v) == z3.StringVal('P'))   # noqa
     tested_alpha = alpha_modes(final)
     if id(final) in made_by:
-        tested_alpha = z3.Or(tested_alpha, mode(made_by[id(final)].recv) == z3.StringVal('P'))
+        cv = made_by[id(final)]
+        tested_alpha = z3.Or(tested_alpha, mode(cv.recv) == z3.StringVal('P'))
+        if len(cv.args) == 1 and isinstance(cv.args[0], VStr) and cv.args[0].conc() == 'RGBA':
+            # convert('RGBA') of an image that has an alpha channel or a palette keeps that transparency
+            tested_alpha = z3.Or(tested_alpha, alpha_modes(cv.recv))
     sup = [e for e in evs_ if e.name == 'has_alpha_composite_support']
     composite = z3.And(mode(res0) == z3.StringVal('RGBA'), ex.truth(st, sup[0].result)) if sup else z3.BoolVal(False)
     origin = lambda v: isinstance(v, VSeq) and v.concrete and len(v.items) == 2 and all(x.conc() == 0 for x in v.items)   # noqa
@@ -156,6 +160,10 @@ def _layer_over(ex, st, k):
     elif op.name == 'blend':
         ok = len(op.args) == 3 and op.args[0] is res0 and op.args[1] is final and st.env['result'] is op.result and is_derived
         g = z3.And(z3.BoolVal(bool(ok)), z3.Not(composite))
+        # blend() has no mask: it is the 'over' step only for a layer image WITHOUT transparency - the alpha channel / palette
+        # transparency of any other image would be dropped by the conversion to the result mode (its hidden colour blended in)
+        src = made_by[id(final)].recv if id(final) in made_by else final
+        g = z3.And(g, z3.Not(alpha_modes(src)))
     else:
         ok = op.recv is not None and hasattr(res0, 't') and op.recv.t.eq(res0.t) and len(op.args) in (2, 3) and op.args[0] is final \
             and origin(op.args[1]) and st.env['result'] is res0 and is_derived
